@@ -225,7 +225,7 @@ Qed.
 Theorem co_step_sext : forall c s, sext s (snd (co_step c s)).
 Proof.
   intros c s. unfold co_step. destruct (co_done c); [apply sext_refl|].
-  destruct c as [b|r|q|n]; cbn [snd]; try apply sext_refl.
+  destruct c as [b|r|q|n|lq]; cbn [snd]; try apply sext_refl.
   - pose proof (batch_step_sext (batch_fuel b) b s) as H.
     destruct (batch_step (batch_fuel b) b s) as [b' s']. exact H.
   - pose proof (rule_step_sext r s) as H. destruct (rule_step r s) as [r' s']. exact H.
